@@ -22,11 +22,11 @@ const SHAPES = {
   str:    { src: '="str"', value: () => 'str' },
   absent: { src: '', novalue: true },
   // JSX attribute strings are not JavaScript strings: a backslash is a backslash, entities are decoded, and the
-  // literal may span lines (for which both the verbatim text and the JSX-normalised text are accepted)
+  // literal may span lines (its value is the text as written: only ordinary attributes are whitespace-normalised)
   strBsl: { narrow: true, src: '="a\\nb"', value: () => 'a\\nb' },
   strEnt: { narrow: true, src: '="a&amp;b&quot;"', value: () => 'a&b"' },
   strSq:  { narrow: true, src: "='a\"b'", value: () => 'a"b' },
-  strNL:  { narrow: true, src: '="a\n   b"', value: () => 'a\n   b', valueAlt: () => 'a b' },
+  strNL:  { narrow: true, src: '="a\n   b"', value: () => 'a\n   b' },
   // semantically transparent wrappers (.tsx) around the value, or around elements of the array form
   xNN:    { src: '={x!}', value: (e) => e.bound.x, ts: true },
   xAs:    { src: '={x as any}', value: (e) => e.bound.x, ts: true },
